@@ -143,6 +143,11 @@ class M(Model):
             return None  # not a complete tour: the documented objective is the closed tour length
         return -self._closed_length(self._xy(s), h), 1e-5 * self.N
 
+    def twin_applicable(self, ep):
+        # "same return on the same trajectory of legal actions": plans may contain raw (possibly invalid)
+        # actions; an episode cut short by an invalid move is not an all-legal trajectory
+        return self.objective(ep) is not None
+
     # ------------------------------------------------------------------ C09
     def predict(self, s, a):
         a = int(a)
